@@ -12,6 +12,7 @@
 #include <algorithm>
 #include <cstdint>
 #include <functional>
+#include <iterator>
 #include <map>
 #include <unordered_map>
 
@@ -353,6 +354,51 @@ static void observe_weak(fixed_vector<Elem<C>>& v, const std::string& after)
     stats["weak-observations"] += 1 + (sum & 0);
 }
 
+// a genuine single-pass input iterator: all copies share the position
+template <typename E>
+struct OnePass
+{
+    using iterator_category = std::input_iterator_tag;
+    using value_type = E;
+    using difference_type = std::ptrdiff_t;
+    using pointer = const E*;
+    using reference = E;
+    struct Shared
+    {
+        std::vector<int> ids;
+        std::size_t next = 0;
+    };
+    std::shared_ptr<Shared> src; // null = end
+    E operator*() const
+    {
+        return E(src->ids[src->next]);
+    }
+    OnePass& operator++()
+    {
+        if (++src->next >= src->ids.size())
+            src.reset();
+        return *this;
+    }
+    OnePass operator++(int)
+    {
+        OnePass old = *this;
+        ++*this;
+        return old;
+    }
+    bool at_end() const
+    {
+        return !src || src->next >= src->ids.size();
+    }
+    bool operator==(const OnePass& o) const
+    {
+        return at_end() == o.at_end();
+    }
+    bool operator!=(const OnePass& o) const
+    {
+        return !(*this == o);
+    }
+};
+
 // ---------------------------------------------------------------------------------------
 // operations
 template <bool C>
@@ -683,6 +729,36 @@ static std::vector<Op<C>> alphabet(std::size_t cap)
                                    resync(w.P());
                                } });
             }
+        for (std::size_t L = 0; L <= cap + 1; ++L)
+        {
+            std::string nm = "push_back(single-pass-range" + std::to_string(L) + ")";
+            ops.push_back({ nm, [L, nm](World<C>& w) {
+                               auto& m = w.P().m;
+                               OnePass<E> first, last;
+                               std::vector<int> ids;
+                               for (std::size_t j = 0; j < L; ++j)
+                                   ids.push_back(w.next_id++);
+                               if (L)
+                               {
+                                   first.src = std::make_shared<typename OnePass<E>::Shared>();
+                                   first.src->ids = ids;
+                               }
+                               std::size_t n = m.ids.size();
+                               bool fits = n + L <= m.cap;
+                               if (call(w, nm, fits ? Guard::must_succeed : Guard::must_raise,
+                                        [&] { w.P().v->push_back(first, last); }))
+                                   m.ids.insert(m.ids.end(), ids.begin(), ids.end());
+                               else if (!w.abandoned)
+                               {
+                                   std::vector<int> all = m.ids;
+                                   all.insert(all.end(), ids.begin(), ids.end());
+                                   resync(w.P());
+                                   if (!(m.ids.size() >= n && m.ids.size() <= m.cap &&
+                                         std::equal(m.ids.begin(), m.ids.end(), all.begin())))
+                                       viol("C07", "failed-range-append-left-unrelated-contents", nm);
+                               }
+                           } });
+        }
         ops.push_back({ "insert(end,initializer_list2)", [](World<C>& w) {
                            auto& m = w.P().m;
                            int a = w.next_id++, b = w.next_id++;
@@ -1072,6 +1148,73 @@ static void flush_found(const std::string& id)
     found.clear();
 }
 
+// trivially copyable element types: a range of a DIFFERENT (convertible) element type must be
+// converted element by element, never copied as bytes; ASan watches the source and the storage
+template <typename Dst, typename Src>
+static void triv_case(const std::string& name, std::size_t cap)
+{
+    for (std::size_t n = 0; n <= cap; ++n)
+    {
+        std::vector<Src> src;
+        for (std::size_t i = 0; i < n; ++i)
+            src.push_back(static_cast<Src>(static_cast<long>(i * 3) - 2));
+        // exact-size heap block so that an over-read is a heap-buffer-overflow
+        std::unique_ptr<Src[]> block(new Src[n ? n : 1]);
+        for (std::size_t i = 0; i < n; ++i)
+            block[i] = src[i];
+        const Src* first = block.get();
+        const Src* last = block.get() + n;
+        auto verify = [&](nitro::lang::fixed_vector<Dst>& v, const char* how) {
+            if (v.size() != n)
+            {
+                viol("C07", "trivial-type:" + name + ":size-after-range-" + how, std::to_string(v.size()) + " vs " + std::to_string(n));
+                return;
+            }
+            for (std::size_t i = 0; i < n; ++i)
+                if (!(v[i] == static_cast<Dst>(src[i])))
+                {
+                    viol("C06", "trivial-type:" + name + ":element-is-not-what-the-caller-inserted",
+                         std::string(how) + " index " + std::to_string(i));
+                    return;
+                }
+            stats["trivial-type-checks"]++;
+        };
+        {
+            nitro::lang::fixed_vector<Dst> v(cap);
+            v.push_back(first, last);
+            verify(v, "push_back(pointer range)");
+        }
+        {
+            nitro::lang::fixed_vector<Dst> v(cap);
+            v.insert(v.begin(), first, last);
+            verify(v, "insert(begin, pointer range)");
+        }
+        {
+            nitro::lang::fixed_vector<Dst> v(cap, src);
+            verify(v, "construct(capacity, vector)");
+        }
+        {
+            nitro::lang::fixed_vector<Dst> v(cap);
+            v.push_back(src.begin(), src.end());
+            verify(v, "push_back(vector iterators)");
+            nitro::lang::fixed_vector<Dst> w(v);
+            verify(w, "copy construction");
+        }
+    }
+}
+
+static void triv_all()
+{
+    triv_case<std::int64_t, int>("int64<-int", 5);
+    triv_case<std::int64_t, short>("int64<-short", 4);
+    triv_case<int, float>("int<-float", 4);
+    triv_case<double, int>("double<-int", 3);
+    triv_case<long, char>("long<-char", 6);
+    triv_case<int, int>("int<-int", 5);
+    triv_case<std::int64_t, std::int64_t>("int64<-int64", 5);
+    triv_case<unsigned char, int>("uchar<-int", 4);
+}
+
 template <bool C>
 static int run(int argc, char** argv)
 {
@@ -1084,6 +1227,18 @@ static int run(int argc, char** argv)
         out("ALPHABET " + std::to_string(A));
         for (std::size_t i = 0; i < ops.size(); ++i)
             out("OP " + std::to_string(i) + " " + ops[i].name);
+        return 0;
+    }
+    if (mode == "triv")
+    {
+        begin_case({ "CASE", "triv" }, 60);
+        triv_all();
+        flush_found("trivially-copyable-element-types");
+        end_case();
+        std::string st = "STATS";
+        for (auto& kv : stats)
+            st += " " + kv.first + "=" + std::to_string(kv.second);
+        out(st);
         return 0;
     }
     if (mode == "seq")
